@@ -26,9 +26,24 @@ ApObs(s) == [rdy |-> T3(s.rdy), dat |-> T3(s.dat), dis |-> T3(s.dis), sem |-> s.
 ApLog(a) == [rdy |-> <<a.rdy[1], a.rdy[2], a.rdy[3]>>, dat |-> <<a.dat[1], a.dat[2], a.dat[3]>>, dis |-> <<a.dis[1], a.dis[2], a.dis[3]>>,
              sem |-> a.sem, msk |-> a.msk, sig |-> a.sig]
 EvLog(rec) == [i \in 1 .. Len(rec.ev) |-> <<rec.ev[i][1], rec.ev[i][2], rec.ev[i][3]>>]
+\* DMA engine / AHB bridge as logged -> as modelled.  A DMA channel is logged as the array
+\* [src hi, src lo, dst hi, dst lo, size0..2, src step0..2, dst step0..2, src space, dst space, dword, y, z,
+\*  current_src hi, lo, current_dst hi, lo, counter0..2, running, ahbm_channel], an AHBM channel as
+\* [unit, burst, direction, dma mask, [queue entries [hi, lo]], [write_burst_start hi, lo]]
+DmaChOf(c) == [sa |-> <<c[1], c[2]>>, da |-> <<c[3], c[4]>>, z0 |-> c[5], z1 |-> c[6], z2 |-> c[7],
+               ss |-> <<c[8], c[9], c[10]>>, ds |-> <<c[11], c[12], c[13]>>, sp |-> c[14], dp |-> c[15], dw |-> c[16],
+               yv |-> c[17], zv |-> c[18], cs |-> <<c[19], c[20]>>, cd |-> <<c[21], c[22]>>,
+               c0 |-> c[23], c1 |-> c[24], c2 |-> c[25], run |-> c[26], ach |-> c[27]]
+DmaOf(d) == [en |-> d.en, act |-> d.act, ch |-> <<DmaChOf(d.ch[1]), DmaChOf(d.ch[2]), DmaChOf(d.ch[3]), DmaChOf(d.ch[4]),
+                                                  DmaChOf(d.ch[5]), DmaChOf(d.ch[6]), DmaChOf(d.ch[7]), DmaChOf(d.ch[8])>>]
+AhChOf(x) == [u |-> x[1], bu |-> x[2], dir |-> x[3], dm |-> x[4], q |-> [i \in 1 .. Len(x[5]) |-> <<x[5][i][1], x[5][i][2]>>],
+              wbs |-> <<x[6][1], x[6][2]>>]
+AhOf(a) == [busy |-> a.busy, ch |-> (0 :> AhChOf(a.ch[1])) @@ (1 :> AhChOf(a.ch[2])) @@ (2 :> AhChOf(a.ch[3]))]
+XaLog(rec) == [i \in 1 .. Len(rec.xa) |-> <<rec.xa[i][1], rec.xa[i][2], rec.xa[i][3], rec.xa[i][4], rec.xa[i][5]>>]
 Fresh(rec) == [c |-> CoreObs(rec, [ph0 \in {} |-> 0]), tm |-> <<TimerOf2(rec.tm[1]), TimerOf2(rec.tm[2])>>,
                icu |-> IcuOf(rec.icu), bt |-> <<BtOf2(rec.bt[1]), BtOf2(rec.bt[2])>>,
-               ap |-> [fc |-> ApOf(rec.ap[1]), fd |-> ApOf(rec.ap[2])], cells |-> [o \in {} |-> 0], ev |-> <<>>]
+               ap |-> [fc |-> ApOf(rec.ap[1]), fd |-> ApOf(rec.ap[2])], cells |-> [o \in {} |-> 0], ev |-> <<>>,
+               dma |-> DmaOf(rec.dma), ah |-> AhOf(rec.ah), ext |-> [xb \in {} |-> 0], xa |-> <<>>, hz |-> {}]
 
 \* a fresh, reset instance must be in the specification's reset state (C17, as far as this observation goes;
 \* the uninitialised ar/arp shadow banks are excluded here and examined by the C17 check itself)
@@ -39,6 +54,7 @@ FreshIsReset(rec) ==
     /\ [BtOf2(rec.bt[1]) EXCEPT !.pd = 4096] = BT!ResetState /\ [BtOf2(rec.bt[2]) EXCEPT !.pd = 4096] = BT!ResetState
     /\ MiuOf(rec.miu) = MiuLive
     /\ ApOf(rec.ap[1]) = ApFresh /\ ApOf(rec.ap[2]) = ApFresh
+    /\ DmaOf(rec.dma) = DmaReset /\ AhOf(rec.ah) = AhReset /\ rec.xa = <<>>
     /\ rec.icu.req = 0 /\ rec.lat[1] = 0 /\ rec.lat[2] = 0 /\ rec.lat[3] = 0 /\ rec.lat[4] = 0
 
 Written(c) == {c.acc[i][1] : i \in {j \in 1 .. Len(c.acc) : c.acc[j][2] = 1 /\ c.acc[j][1] < MmioBase}}
@@ -56,6 +72,8 @@ ObsMatches(rec) ==
          /\ vY.bt = <<BtOf2(rec.bt[1]), BtOf2(rec.bt[2])>>
          /\ ApObs(vY.ap.fc) = ApLog(rec.ap[1]) /\ ApObs(vY.ap.fd) = ApLog(rec.ap[2])
          /\ vY.ev = EvLog(rec)                      \* every host callback of the slice, in order
+         /\ vY.dma = DmaOf(rec.dma) /\ vY.ah = AhOf(rec.ah)
+         /\ vY.xa = XaLog(rec)                      \* every external-memory callback of the slice, in order, with its value
          /\ {<<a, MemVal(vY.c, a)>> : a \in vWr} = {<<rec.wr[i][1], rec.wr[i][2]>> : i \in 1 .. Len(rec.wr)}
 
 \* printed when an observation does not match (the step is then disabled): what differs
@@ -70,6 +88,12 @@ ObsDiff(rec) ==
      bt |-> IF vY.bt = <<BtOf2(rec.bt[1]), BtOf2(rec.bt[2])>> THEN "same" ELSE <<vY.bt, rec.bt>>,
      ap |-> IF ApObs(vY.ap.fc) = ApLog(rec.ap[1]) /\ ApObs(vY.ap.fd) = ApLog(rec.ap[2]) THEN "same" ELSE <<vY.ap, rec.ap>>,
      ev |-> IF vY.ev = EvLog(rec) THEN "same" ELSE <<vY.ev, rec.ev>>,
+     dma |-> IF vY.dma = DmaOf(rec.dma) THEN "same"
+             ELSE <<<<vY.dma.en, rec.dma.en>>, <<vY.dma.act, rec.dma.act>>,
+                    {<<i - 1, vY.dma.ch[i], rec.dma.ch[i]>> : i \in {j \in 1 .. 8 : vY.dma.ch[j] # DmaChOf(rec.dma.ch[j])}}>>,
+     ah |-> IF vY.ah = AhOf(rec.ah) THEN "same"
+            ELSE <<<<vY.ah.busy, rec.ah.busy>>, {<<i, vY.ah.ch[i], rec.ah.ch[i + 1]>> : i \in {j \in 0 .. 2 : vY.ah.ch[j] # AhChOf(rec.ah.ch[j + 1])}}>>,
+     xa |-> IF vY.xa = XaLog(rec) THEN "same" ELSE <<vY.xa, rec.xa>>,
      wr |-> <<{<<a, MemVal(vY.c, a)>> : a \in vWr} \ {<<rec.wr[i][1], rec.wr[i][2]>> : i \in 1 .. Len(rec.wr)},
               {<<rec.wr[i][1], rec.wr[i][2]>> : i \in 1 .. Len(rec.wr)} \ {<<a, MemVal(vY.c, a)>> : a \in vWr}>>]
 
@@ -83,7 +107,7 @@ TLoad == /\ vPh = "idle" /\ IsEv("Load")
          /\ vL' = vL + 1 /\ TLCSet(1, vL) /\ UNCHANGED <<vK, vPh, vWr>>
 \* Teakra::Run(n): idle := false, then n cycles
 TBegin == /\ vPh = "idle" /\ IsEv("Run")
-          /\ vPh' = "run" /\ vK' = Rec.n /\ vWr' = {} /\ vY' = [vY EXCEPT !.c.idle = FALSE, !.ev = <<>>] /\ UNCHANGED vL
+          /\ vPh' = "run" /\ vK' = Rec.n /\ vWr' = {} /\ vY' = [vY EXCEPT !.c.idle = FALSE, !.ev = <<>>, !.xa = <<>>] /\ UNCHANGED vL
 \* several cycles per TLC step (bounded recursion): [vY, vWr, vK] after at most Chunk cycles.
 \* (A LET placed directly in an action is re-evaluated by TLC at every use, operator arguments are not:
 \* hence the helper operators instead of LETs.)
@@ -101,7 +125,7 @@ TStep  == /\ vPh = "run" /\ vK > 0 /\ vY.c.out = "ok"
 HostApply(rec, h) == /\ (IF h.y.c.out # "ok" \/ h.ret = rec.ret THEN TRUE ELSE (PrintT(<<"MISMATCH", [line |-> vL, ret |-> <<h.ret, rec.ret>>]>>) /\ FALSE))
                      /\ vY' = h.y /\ vWr' = Written(h.y.c)
 THost == /\ vPh = "idle" /\ IsEv("Host")
-         /\ HostApply(Rec, HostCall([vY EXCEPT !.ev = <<>>, !.c.acc = <<>>], Rec.op, Rec.a, Rec.b))
+         /\ HostApply(Rec, HostCall([vY EXCEPT !.ev = <<>>, !.xa = <<>>, !.c.acc = <<>>], Rec.op, Rec.a, Rec.b))
          /\ vPh' = "host" /\ UNCHANGED <<vL, vK>>
 TEnd   == /\ (vPh = "host" \/ (vPh = "run" /\ (vK = 0 \/ vY.c.out # "ok")))
           /\ (IF ObsMatches(Rec) THEN TRUE ELSE (PrintT(<<"MISMATCH", ObsDiff(Rec)>>) /\ FALSE))
@@ -111,7 +135,8 @@ TraceInit == /\ vL = 1 /\ vK = 0 /\ vPh = "idle" /\ vWr = {} /\ TLCSet(1, 0)
              /\ vY = [c |-> [r |-> ResetRegs, mem |-> [a \in {} |-> 0], io |-> EmptyIo, acc |-> <<>>, out |-> "ok", idle |-> FALSE,
                             lat |-> <<0, 0, 0, 0>>, vaddr |-> 0, vctx |-> 0, miu |-> MiuLive],
                      tm |-> <<TM!ResetState, TM!ResetState>>, icu |-> IcuReset,
-                     bt |-> <<BT!ResetState, BT!ResetState>>, ap |-> ApReset, cells |-> [o \in {} |-> 0], ev |-> <<>>]
+                     bt |-> <<BT!ResetState, BT!ResetState>>, ap |-> ApReset, cells |-> [o \in {} |-> 0], ev |-> <<>>,
+                     dma |-> DmaReset, ah |-> AhReset, ext |-> [xb \in {} |-> 0], xa |-> <<>>, hz |-> {}]
 TraceNext == TNew \/ TLoad \/ TBegin \/ TStep \/ THost \/ TEnd
 TraceSpec == TraceInit /\ [][TraceNext]_tvars
 
